@@ -22,7 +22,13 @@ THREADS = [
     ("(x < 1 && y) ? x * 100 + 7 : x * 100 + 8", [{"x": 0, "y": True}, {"x": 5, "y": True}]),
     ("[3, 6].exists(v, v == x) ? x + 1000 : x + 2000", [{"x": 6, "y": True}, {"x": 4, "y": False}]),
 ]
-OPCODE_FUNCS = ("evaluate", "__init__", "parse", "__enter__", "__exit__")
+def opcode_objects():
+    """Code objects explored at byte-code granularity: the functions that touch process-wide state."""
+    import celpy
+    import celpy.celparser
+    import celpy.evaluation
+    return [celpy.evaluation.Transpiler.evaluate.__code__, celpy.celparser.CELParser.__init__.__code__, celpy.celparser.CELParser.parse.__code__,
+            celpy.Environment.__init__.__code__]
 
 
 def to_cel(b):
@@ -63,29 +69,50 @@ def warm_up(warm):
         celpy.Environment(runner_class=celpy.CompiledRunner if k == "C" else celpy.InterpretedRunner)
 
 
+_WORKER = {"cfg": None, "snap": None, "seq": 0}
+
+
 def exec_batch(cfg, prefixes):
-    """Executed inside ONE forked child: the schedules of a batch run one after the other, the
-    library's process-wide state being restored to the zygote's snapshot between them."""
+    """Run the schedules of a batch one after the other in THIS process, the library's
+    process-wide state being restored to the snapshot taken after warm-up between them.
+    On first use in a process the bodies are run once untraced and the state restored, which only
+    warms interpreter-level caches (a cold traced run costs seconds after a fork)."""
     from ..explore import procstate
     mix, nevals, warm, opcode = cfg
-    warm_up(warm)
-    snap = procstate.snapshot()
+    if _WORKER["cfg"] is None:
+        warm_up(warm)
+        snap = procstate.snapshot()
+        for i, k in enumerate(mix):
+            make_body(i, k, nevals, [None])()
+        procstate.restore(snap)
+        _WORKER.update(cfg=cfg, snap=snap)
+    elif _WORKER["cfg"] != cfg:
+        raise runner.HarnessError("a worker process serves exactly one configuration")
+    snap = _WORKER["snap"]
     out = []
     for prefix in prefixes:
         phases = [[None] for _ in mix]
         bodies = [make_body(i, k, nevals, phases[i]) for i, k in enumerate(mix)]
-        res = sched.execute(bodies, prefix, opcode_funcs=OPCODE_FUNCS if opcode else ())
+        res = sched.execute(bodies, prefix, opcode_code_objects=opcode_objects() if opcode else (), phases=phases)
         res["left_behind"] = procstate.restore(snap)
         out.append(res)
-    return out
+    _WORKER["seq"] += 1
+    return os.getpid(), _WORKER["seq"], out
+
+
+def run_batch_worker(task):
+    """In a long-lived pool worker (forked from the pristine parent for this configuration)."""
+    cfg, prefixes = task
+    return exec_batch(cfg, prefixes)
 
 
 def run_batch(task):
+    """In a fresh fork of the parent: used for the root, confirmations and replays."""
     cfg, prefixes = task
     status, res = sched.run_in_fork(exec_batch, cfg, prefixes)
     if status != "ok":
         raise runner.HarnessError(f"schedule execution crashed: {res}")
-    return res
+    return res[2]
 
 
 def run_schedule(task):
@@ -138,7 +165,7 @@ def first_bad(mix, vec, solos):
     return None
 
 
-def explore(ctx, cfg, bound, solos, label, cap=None):
+def explore(ctx, cfg, bound, solos, label, cap=None, window="all"):
     """Iterative context bounding for one configuration; returns counters."""
     mix, nevals, warm, opcode = cfg
     frontier = [[]]
@@ -157,7 +184,15 @@ def explore(ctx, cfg, bound, solos, label, cap=None):
             if not frontier:
                 break
         batches = [frontier[i:i + BATCH] for i in range(0, len(frontier), BATCH)]
-        results = [r for rs in runner.pmap(run_batch, [(cfg, b) for b in batches]) for r in rs]
+        raw = runner.pmap(run_batch_worker, [(cfg, b) for b in batches])
+        results = [r for (_pid, _seq, rs) in raw for r in rs]
+        by_worker = collections.defaultdict(list)
+        for (pid, seq, _rs), b in zip(raw, batches):
+            by_worker[pid].append((seq, b))
+        where_run = {}
+        for (pid, seq, _rs), b in zip(raw, batches):
+            for j, pfx in enumerate(b):
+                where_run[tuple(pfx)] = (pid, seq, j)
         nxt = []
         for prefix, res in zip(frontier, results):
             executed += 1
@@ -183,11 +218,16 @@ def explore(ctx, cfg, bound, solos, label, cap=None):
                     raise runner.HarnessError(f"{label}: schedule replay is not deterministic: {v1} vs {v2}")
                 if first_bad(mix, v1, solos) is None:
                     # only fails after the earlier schedules of its batch: report the whole batch history
-                    bi = frontier.index(prefix) // BATCH
-                    hist = frontier[bi * BATCH: frontier.index(prefix) + 1]
+                    pid, seq, j = where_run[tuple(prefix)]
+                    hist = []
+                    for sq, b in sorted(by_worker[pid]):
+                        if sq < seq:
+                            hist.extend(b)
+                        elif sq == seq:
+                            hist.extend(b[: j + 1])
                     h1 = run_batch((cfg, hist))[-1]
                     if first_bad(mix, vec_of(h1), solos) is None:
-                        raise runner.HarnessError(f"{label}: violation at schedule {prefix} reproduces neither alone nor after its batch history")
+                        raise runner.HarnessError(f"{label}: violation at schedule {prefix} reproduces neither alone nor after its worker's history")
                     witness["history"] = hist
                     witness["left_behind"] = h1.get("left_behind")
                     cls0 = "after-history:"
@@ -201,7 +241,7 @@ def explore(ctx, cfg, bound, solos, label, cap=None):
                 ctx.part.violation(
                     cls, f"mix={''.join(mix)}:warm={''.join(warm) or '-'}:{cls}:preempt@{','.join(sw) or 'none'}", witness,
                     f"thread {t} ({k}, {THREADS[t][0]!r}) returned {got}, solo gives {exp}; preemptions at {sw}; schedule has {len(res['choices'])} points")
-            nxt.extend(sched.children(res, len(prefix), bound))
+            nxt.extend(sched.children(res, len(prefix), bound, window=(None if window == "all" else (lambda i, pt: pt[4] == window))))
         frontier = nxt
         depth += 1
     return dict(executed=executed, vectors=len(vectors), maxpoints=maxpoints, violations=viol, transitions=transitions, capped=capped, state_left_behind=dict(leftovers.most_common(12)))
@@ -211,18 +251,21 @@ def run(ctx):
     repo.prebuild_parsers()
     nevals = 2
     configs = []
+    # (mix, warm, preemption bound, opcode granularity, window for preemption placement)
     if ctx.thorough:
-        plan = [  # (mix, warm, bound, opcode)
-            (("C", "C"), (), 2, False), (("C", "I"), (), 2, False), (("I", "C"), (), 2, False), (("I", "I"), (), 1, False),
-            (("C", "C"), ("C",), 2, False), (("C", "I"), ("I",), 1, False), (("C", "I"), ("C",), 1, False),
-            (("C", "C", "I"), (), 1, False), (("C", "C", "C"), ("C",), 1, False),
-            (("C", "C"), ("C",), 1, True),
+        plan = [
+            (("C", "C"), (), 1, False, "all"), (("C", "I"), (), 1, False, "all"), (("I", "C"), (), 1, False, "all"), (("I", "I"), (), 1, False, "all"),
+            (("C", "C"), ("C",), 1, False, "all"), (("C", "I"), ("I",), 1, False, "all"), (("C", "I"), ("C",), 1, False, "all"),
+            (("C", "C"), ("C",), 2, False, "eval"),
+            (("C", "C", "I"), (), 1, False, "eval"), (("C", "C", "C"), ("C",), 1, False, "eval"),
+            (("C", "C"), ("C",), 1, True, "eval"),
         ]
     else:
         plan = [
-            (("C", "C"), (), 1, False), (("C", "I"), (), 1, False), (("I", "C"), (), 1, False), (("I", "I"), (), 1, False),
-            (("C", "C"), ("C",), 1, False), (("C", "I"), ("I",), 1, False),
-            (("C", "C", "I"), (), 0, False),
+            (("C", "C"), (), 1, False, "all"),
+            (("C", "I"), (), 1, False, "eval"), (("I", "C"), (), 1, False, "eval"), (("I", "I"), (), 1, False, "eval"),
+            (("C", "C"), ("C",), 1, False, "eval"), (("C", "I"), ("I",), 1, False, "eval"),
+            (("C", "C", "I"), (), 0, False, "all"),
         ]
     # solo references: fresh fork, cross-checked against a fresh python subprocess
     solos = {}
@@ -230,7 +273,7 @@ def run(ctx):
     for t in range(len(THREADS)):
         for k in ("I", "C"):
             ref = tuple(solo_subprocess(t, k, nevals))
-            for warm in {w for (_m, w, _b, _o) in plan}:
+            for warm in {w for (_m, w, _b, _o, _w) in plan}:
                 got = tuple(runner.pmap(solo_task, [(t, k, nevals, warm)], nproc=1)[0])
                 # a warm zygote of the *other* kind may legitimately differ only if the tree is broken; compare anyway
                 if got != ref and not warm:
@@ -254,10 +297,10 @@ def run(ctx):
     total_exec = total_trans = 0
     distinct = set()
     per_cfg = {}
-    for mix, warm, bound, opcode in plan:
-        cfg = (mix, nevals, warm, opcode)
-        label = f"{''.join(mix)}/warm={''.join(warm) or '-'}/bound={bound}{'/opcode' if opcode else ''}"
-        st = explore(ctx, cfg, bound, solos, label)
+    for mix, warm, bound, opcode, window in plan:
+        cfg = (mix, nevals if not (bound >= 2) else 1, warm, opcode)
+        label = f"{''.join(mix)}/warm={''.join(warm) or '-'}/bound={bound}/window={window}{'/opcode' if opcode else ''}"
+        st = explore(ctx, cfg, bound, solos if cfg[1] == nevals else {k: v[:cfg[1]] for k, v in solos.items()}, label, window=window)
         per_cfg[label] = st
         total_exec += st["executed"]
         total_trans += st["transitions"]
